@@ -126,6 +126,10 @@ func (c *Ctx) instrWrites(ins ssa.Instruction, keys map[string]bool, locals map[
 	case *ssa.MapUpdate:
 		keys[c.mapKey(x.Map.Type())] = true
 	case *ssa.Call:
+		if c.invisibleCall(&x.Call) {
+			*allocs = true
+			return
+		}
 		w := c.callWrites(&x.Call, visiting)
 		for k := range w.keys {
 			keys[k] = true
@@ -155,6 +159,25 @@ func (c *Ctx) instrWrites(ins ssa.Instruction, keys map[string]bool, locals map[
 			keys["*"] = true
 		}
 	}
+}
+
+// invisibleCall: a statically resolved callee under a contract that modifies
+// nothing and returns no reference has no heap effect the caller can observe.
+func (c *Ctx) invisibleCall(call *ssa.CallCommon) bool {
+	fn := call.StaticCallee()
+	if fn == nil || call.IsInvoke() {
+		return false
+	}
+	fc := c.prog.contractFor(fn)
+	if fc == nil || fc.Inline || len(fc.Modifies) > 0 {
+		return false
+	}
+	for _, t := range resultTypes(fn.Signature) {
+		if isRefType(t) {
+			return false
+		}
+	}
+	return true
 }
 
 func (c *Ctx) callWrites(call *ssa.CallCommon, visiting map[*ssa.Function]bool) *writeSet {
@@ -537,6 +560,17 @@ func (fr *frame) applyContract(fc *FuncContract, display string, names []string,
 		fr.assumeR(fmt.Sprintf("(>= %s %s)", na, preAlloc))
 		st.alloc = na
 	}
+	// a callee that modifies nothing and returns no reference cannot make its
+	// fresh objects visible to the caller: the caller's heaps stay as they are
+	invisible := len(mods) == 0 && !w.all
+	for _, t := range rts {
+		if isRefType(t) {
+			invisible = false
+		}
+	}
+	if invisible {
+		keys = nil
+	}
 	for _, k := range keys {
 		old := c.heap(st, k)
 		if !w.allocKeys[k] && !w.all && !strings.HasPrefix(k, "map!") {
@@ -555,7 +589,7 @@ func (fr *frame) applyContract(fc *FuncContract, display string, names []string,
 			}
 			continue
 		}
-		nh := c.newHeapConst(k, "_call")
+		nh := c.newHeapConst(k, "_call", st.alloc)
 		st.heaps[k] = nh
 		fr.assumeR(frameFormula(k, nh, old, "", preAlloc, mods, strings.HasPrefix(k, "map!")))
 	}
